@@ -2,6 +2,7 @@ import MmtkModel.Model.WeakMon
 import MmtkModel.Model.SATB
 import MmtkModel.Model.IntPtr
 import Driver.GCMon.Monitor
+import Driver.GCWeak.Events
 import Std.Data.HashSet
 /-!
 # `gcw`: the snapshot monitor `gcm` extended with the remembered-set model (C05), the reference /
@@ -58,6 +59,13 @@ structure St where
   /-- C08: SFT index (address >> 41) → space name, from `spaces`; 4 MB chunk number → mapped, from `ismapped` -/
   spaceTab : List (Nat × String) := []
   mappedTab : List (Nat × Bool) := []
+  /-- C13: VerifVM's ephemeron table (key id, value id), entries dropped so far, the type hash of the
+  `VMProcessWeakRefs` packet (from `ptypes`), the answers the last pause must have given, `needs_forward_after_liveness` -/
+  eph : List (Nat × Nat) := []
+  ephDropped : List (Nat × Nat) := []
+  weakTys : List Nat := []
+  expectRets : Option (List Bool) := none
+  fwdAfter : Bool := false
 
 def sortNat (l : List Nat) : List Nat := l.mergeSort (fun a b => decide (a ≤ b))
 
@@ -87,9 +95,13 @@ def onPause (st : St) (h : Heap) (nursery : Bool) : St :=
   let o := gcStages { heap := h, seeds := rootIdsOf h ++ olds, immortal := immortalOf st.g, emergency := st.emergency } st.w
   -- the collector cleared these referent fields
   let heap' := o.cleared.foldl (fun hp r => (applyOp hp (.write r 0 none)).getD hp) st.g.heap
-  let surv : Nat → Bool := fun x => o.live.getD x false
-  { st with g := { st.g with heap := heap' }, w := o.w, alive := o.live, bornBefore := h.objs.size, emergency := false,
-            gen := promote st.gen surv, voExact := !nursery, inSnap := #[] }
+  -- VMRefClosure: the binding's ephemeron table, on top of what the reference / finalizable processors kept
+  let eo := ephRounds h (immortalOf st.g) o.marked st.eph
+  let aliveNow := (Array.range h.objs.size).map (liveOf eo.marked (immortalOf st.g) h.objs.size)
+  let surv : Nat → Bool := fun x => aliveNow.getD x false
+  { st with g := { st.g with heap := heap' }, w := o.w, alive := aliveNow, bornBefore := h.objs.size, emergency := false,
+            gen := promote st.gen surv, voExact := !nursery, inSnap := #[],
+            eph := eo.table, ephDropped := st.ephDropped ++ eo.dropped, expectRets := some eo.rets }
 
 /-- C07: the object with this id is a valid object now: allocated (not a tombstone) and never collected, allocated
 since the last pause, or a survivor of the last pause -/
@@ -163,7 +175,8 @@ def ext (st : St) (pre : Driver.GCMon.St) (op res : List String) : St × String 
   -- re-apply the op's own shadow effect on top of the cleared referents (alloc / write happen after the pause)
   match op with
   | "constraints" :: _ =>
-    ({ st with generational := (kvNum res "generational").getD 0 == 1, concurrent := (kvNum res "concurrent").getD 0 == 1 }, "ok")
+    ({ st with generational := (kvNum res "generational").getD 0 == 1, concurrent := (kvNum res "concurrent").getD 0 == 1,
+               fwdAfter := (kvNum res "fwdafterliveness").getD 0 == 1 }, "ok")
   | "alloc" :: _ :: id :: _ =>
     match num? id, kvGet res "space" with
     | some id, some space =>
@@ -289,6 +302,41 @@ def ext (st : St) (pre : Driver.GCMon.St) (op res : List String) : St × String 
           (st, viol "gc:ismo-stale" s!"no valid object has the reference {a} after the full-heap collection, but is_mmtk_object answers {" ".intercalate res}")
         else (st, "ok")
     | none => (st, "ok")
+  | ["ephemeron", k, v] =>
+    match num? k, num? v with
+    | some k, some v => if res.head? == some "ok" then ({ st with eph := st.eph ++ [(k, v)] }, "ok") else (st, "ok")
+    | _, _ => (st, "ok")
+  | ["ephdump"] =>
+    let sh (l : List (Nat × Nat)) := ",".intercalate (l.map fun e => s!"{e.1}>{e.2}")
+    let want := ["eph", s!"live={sh st.eph}", s!"dropped={sh st.ephDropped}"]
+    if res != want then (st, viol "gc:ephdump-mismatch" s!"weak table: {" ".intercalate res}, model {" ".intercalate want}")
+    else (st, "ok")
+  | ["ptypes"] =>
+    -- one instance of `VMProcessWeakRefs<T>` per trace type (generational plans: nursery and full-heap)
+    let tys := res.filterMap fun t => match t.splitOn "=" with
+      | [h, name] => if (name.splitOn "::VMProcessWeakRefs<").length > 1 then parseHex? h else none
+      | _ => none
+    ({ st with weakTys := tys }, "ok")
+  | ["events"] =>
+    match res with
+    | "ev" :: toks =>
+      match Events.replay st.weakTys toks with
+      | none => (st, viol "prog:parse" "events")
+      | some es =>
+        let exp := st.expectRets
+        let st := { st with expectRets := none }
+        match es.err with
+        | some (k, d) => (st, viol k d)
+        | none =>
+          if !es.open11 then (st, "ok")      -- no collection reached the VMRefClosure stage in this log
+          else if st.weakTys.isEmpty then (st, viol "prog:parse" "events before ptypes")
+          else if !es.m.done then (st, viol "gc:weak-next-bucket" s!"the log ends before the VMRefClosure stage finished (answers {es.m.rets})")
+          else if exp.isSome && exp != some es.m.rets then
+            (st, viol "gc:weak-rounds" s!"process_weak_refs answered {es.m.rets}, the ephemeron table needs {exp.getD []}")
+          else if es.fwd != (if st.fwdAfter then 1 else 0) then
+            (st, viol "gc:forward-weak" s!"forward_weak_refs was called {es.fwd} times, needs_forward_after_liveness={st.fwdAfter}")
+          else (st, "ok")
+    | _ => (st, "ok")
   | ["spaces"] =>
     match res with
     | ["spaces", body] => ({ st with spaceTab := parseSpaces body }, "ok")
